@@ -3,6 +3,7 @@
 From stdpp Require Import gmap.
 From Model Require Import C06_PCache.
 From Coq Require Import ZArith NArith Lia.
+From Gen Require Gen_Funcs.
 
 (* advertisement times present in a record are after 1970 *)
 Definition wf_rec (r : rec) : Prop := match r_time r with Some t => (0 < t)%Z | None => True end.
@@ -1320,3 +1321,14 @@ Example negative_example :
   (get real_need_merge 500 6 pQ [Found (rc 9 1); NotFound] s1).2 = RGet None 0 /\
   visible (refresh true real_need_merge 500 7 [Reports [(pQ, rc 9 1)]; Fails] s1).1 pQ = Some (rc 9 1).
 Proof. cbn zeta. split_and!; vm_compute; reflexivity. Qed.
+
+(* ---------------------------------------------------------------- *)
+(* the merge policy the case checkers run with is the function astgen translates from the
+   Go source (gen/Gen_Funcs.v, regenerated every run) *)
+Lemma need_merge_is_source_l u m :
+  real_need_merge u m = Gen_Funcs.pcache_needMerge (Z.of_nat u) (Z.of_nat m).
+Proof.
+  unfold real_need_merge, Gen_Funcs.pcache_needMerge.
+  destruct (Nat.ltb_spec (m * 2) (u * (u + 1))) as [H|H];
+    symmetry; [apply Z.ltb_lt|apply Z.ltb_ge]; nia.
+Qed.
